@@ -28,6 +28,9 @@ type Case struct {
 	Mode    int    `json:"mode"`    // migrate.PlanMode: 0 unset, 1 in-place, 2 deferred, 3 dump
 	Multi   bool   `json:"multi"`   // a second, two-column FK per edge (random tier)
 	Split   bool   `json:"split,omitempty"` // tables live in two schemas (table i in schema i%2) and tables 2k, 2k+1 share the name t<k>: plans are made from a realm diff and carry schema-qualified names
+	// DropSchema (with Split): the desired realm no longer has the second schema at all (its tables must all be dropped ones):
+	// the change set holds a DropSchema next to the table changes of the first schema
+	DropSchema bool   `json:"drop_schema,omitempty"`
 	Flavour string `json:"flavour,omitempty"` // MySQL family: "" = mysql.DefaultPlan; mysql8 | mysql57 | maria | tidb = the planner of a driver opened against that server
 	Names   int    `json:"names"`   // 0: FK named after its edge (a re-pointed FK is drop+add); 1: named after its table and slot (the n-th FK of a table keeps its name when it points elsewhere: ModifyForeignKey)
 }
@@ -88,12 +91,19 @@ func (c Case) namer(edges []Edge) func(e Edge, multi bool) string {
 // build creates the schema graph holding the given tables and FK edges. Every table has the same columns
 // in both schemas (id, aux, and r<j>/s<j> for every other table), so the only differences are tables and FKs.
 func build(c Case, tables []int, edges []Edge) *schema.Realm {
+	return buildOpt(c, tables, edges, false)
+}
+
+// buildOpt: with dropSecond the realm is built without the second schema (no table may live there).
+func buildOpt(c Case, tables []int, edges []Edge, dropSecond bool) *schema.Realm {
 	s := schema.New("app")
 	r := schema.NewRealm(s)
 	ss := []*schema.Schema{s, s}
 	if c.Split {
 		ss[1] = schema.New("crm")
-		r.AddSchemas(ss[1])
+		if !dropSecond {
+			r.AddSchemas(ss[1])
+		}
 	}
 	intT := &schema.IntegerType{T: "bigint"}
 	byI := map[int]*schema.Table{}
@@ -195,6 +205,7 @@ var (
 	reAlter    = regexp.MustCompile("(?is)^ALTER TABLE (?:" + ident + "\\.)?" + ident + " (.*)$")
 	reConstFK  = regexp.MustCompile("(?is)CONSTRAINT " + ident + " FOREIGN KEY \\([^)]*\\) REFERENCES (?:" + ident + "\\.)?" + ident)
 	reIndex    = regexp.MustCompile("(?is)^(CREATE (UNIQUE )?INDEX|DROP INDEX) ")
+	reDropSchema = regexp.MustCompile("(?is)^DROP (?:DATABASE|SCHEMA) " + ident + "(?: CASCADE)?$")
 	reDropFK   = regexp.MustCompile("(?is)DROP (?:FOREIGN KEY|CONSTRAINT) " + ident)
 )
 
@@ -218,6 +229,24 @@ func (c *catalogue) apply(cmd string) error {
 			c.fks[name+"."+fk] = fkRef{name, ref}
 		}
 		c.tables[name] = true
+	case reDropSchema.MatchString(cmd):
+		name := reDropSchema.FindStringSubmatch(cmd)[1]
+		// every table of the schema goes; none of them may still be referenced from outside the schema
+		for k, fk := range c.fks {
+			if strings.HasPrefix(fk.ref, name+".") && !strings.HasPrefix(fk.table, name+".") {
+				return fmt.Errorf("schema %s dropped while foreign key %s (of another schema) still references its table %s", name, k, fk.ref)
+			}
+		}
+		for k, fk := range c.fks {
+			if strings.HasPrefix(fk.table, name+".") {
+				delete(c.fks, k)
+			}
+		}
+		for t := range c.tables {
+			if strings.HasPrefix(t, name+".") {
+				delete(c.tables, t)
+			}
+		}
 	case reDropTbl.MatchString(cmd):
 		m := reDropTbl.FindStringSubmatch(cmd)
 		name := c.qual(m[1], m[2])
@@ -282,7 +311,7 @@ func planners(d string) (schema.Differ, migrate.PlanApplier) {
 func checkCase(c Case) (Outcome, error) {
 	var out Outcome
 	from := build(c, c.fromTables(), c.FromE)
-	to := build(c, c.toTables(), c.ToE)
+	to := buildOpt(c, c.toTables(), c.ToE, c.Split && c.DropSchema)
 	differ, planner := planners(c.Dialect)
 	if c.Dialect == "mysql" && c.Flavour != "" {
 		drv, err := gm.OpenMySQL(c.Flavour)
